@@ -188,14 +188,26 @@ func c05Scenario(t *rapid.T) ([]c05Op, bool) {
 	n := rapid.IntRange(2, 10).Draw(t, "nops")
 	var ops []c05Op
 	deletes := false
-	if rapid.Bool().Draw(t, "openFirst") {
+	openFirst := rapid.Bool().Draw(t, "openFirst")
+	if openFirst {
 		ops = append(ops, c05Op{kind: "open"})
 	}
-	if rapid.IntRange(0, 2).Draw(t, "fillPage") == 0 {
+	switch rapid.IntRange(0, 5).Draw(t, "fillPage") {
+	case 0, 1:
 		// four 4000-byte names: the fourth does not fit into the first page, the file has to grow
 		for _, nm := range names[2:6] {
 			ops = append(ops, c05Op{kind: "add", name: nm, n: 1})
 		}
+	case 2:
+		// eight to eleven of them: the file has to grow several times; when the file is opened only afterwards,
+		// all of them are written out by that one call (growth while the counters of an earlier growth are being written out)
+		for i, k := 0, rapid.IntRange(8, 11).Draw(t, "manyLong"); i < k; i++ {
+			ops = append(ops, c05Op{kind: "add", name: fmt.Sprintf("M%d/", i) + strings.Repeat("m", rapid.SampledFrom([]int{4000, 4080, 2500}).Draw(t, "manyLongLen")), n: int64(i + 1)})
+		}
+		if !openFirst && rapid.Bool().Draw(t, "openAfterFill") {
+			ops = append(ops, c05Op{kind: "open"})
+		}
+		vstats.Label("manyLongNamesPending")
 	}
 	for i := 0; i < n; i++ {
 		k := rapid.SampledFrom([]string{"add", "add", "add", "add", "open", "rotate", "read", "rmfile", "rmdir", "setmode"}).Draw(t, "op")
@@ -409,6 +421,19 @@ func c05CorruptWith(t *rapid.T, data []byte, vf *vformat.File) string {
 // TestVerifC05Corrupt: a valid file produced by the library is closed, damaged
 // at rest, and reopened by a fresh process that then increments new and
 // existing names.
+// c05ZeroFrom reports whether the file holds only zero bytes from the allocation limit on.
+func c05ZeroFrom(data []byte, hdrLen, limit uint32) bool {
+	if limit == 0 {
+		limit = vformat.FirstRecord(hdrLen) // no record handed out yet
+	}
+	for i := int(limit); i < len(data); i++ {
+		if data[i] != 0 {
+			return false
+		}
+	}
+	return true
+}
+
 func TestVerifC05Corrupt(t *testing.T) {
 	defer vstats.Flush()
 	base := t.TempDir()
@@ -460,9 +485,12 @@ func TestVerifC05Corrupt(t *testing.T) {
 			t.Fatal(err)
 		}
 		wellFormedAfter := false
-		if vf, err := vformat.Decode(data); err == nil && len(vf.Validate()) == 0 {
+		if vf, err := vformat.Decode(data); err == nil && len(vf.Validate()) == 0 && c05ZeroFrom(data, vf.HdrLen, vf.Limit) {
 			// the damage left a well-formed file (possibly with other values or fewer records):
-			// what it holds now is the baseline
+			// what it holds now is the baseline. Well-formed includes that the space not handed out yet is
+			// empty: a lowered limit (or a dropped chain) leaves old records in the space that new records
+			// are carved from, and their bytes become the initial value of a new counter - at-rest damage
+			// to that counter's value, not a failure of the exact accounting this clause is about.
 			wellFormedAfter = true
 			before = map[string]uint64{}
 			for k, v := range vf.Count {
@@ -496,7 +524,10 @@ func TestVerifC05Corrupt(t *testing.T) {
 		counters := map[string]*Counter{}
 		begun := map[string]uint64{}
 		ctl := vhook.New()
-		ctl.TickBudget = int64(64*(len(data)/16+1024)) * int64(nops+2)
+		// Every chain walk is bounded by the number of records that fit into the mapping, and a damaged limit can
+		// make the library grow the file (the harness cuts growth off at 64 MiB): the budget is several walks of the
+		// largest possible mapping per operation. It is a bound on "unbounded", not a performance requirement.
+		ctl.TickBudget = int64((64<<20)/32+1024) * 8 * int64(nops+2)
 		ctl.CallBudget = 200 * (nops + 2) // opening takes about 15 intercepted calls, an Add at most 10 re-mappings of 5 calls each
 		pv, stack := ctl.Direct(func() {
 			f2.rotate1()
